@@ -27,7 +27,7 @@ LEVEL = "fault_enumeration"
 BATCH = 1
 TIMEOUT = 900
 REQUIRED_OBS = ["scripts_run", "success_runs_checked", "failure_runs_checked", "recovered_after_failure", "odeint_runs",
-                "ladder_level_2_reached", "thermal_network_scripts"]
+                "ladder_level_2_reached", "thermal_network_scripts", "reinit_failure_reached"]
 RULE = ("fault scripts for the mock CVODE: first call in {ok, warning +1/+99, fail(flag, frac)}, then per recovery level "
         "{all ok, fail at sub-step s in {1, middle, last} with (flag, frac)}, flags {-1,-2,-3,-4,-6,-5,-7,-8,-22}, frac in "
         "{0, 0.37, 1-2^-52, 1}, optional failing CVodeReInit; exhaustive to depth 1 (quick) / 2 (thorough) plus random scripts "
@@ -112,6 +112,12 @@ def make_scripts(rng, tier):
         if rng.random() < 0.1:
             reinit = [0] * rng.randint(0, 3) + [rng.choice([-22, -21, -1])]
         scripts.append({"first": first, "levels": levels, "reinit": reinit})
+    # failing re-initialisation at each of the first three recovery levels, after every recoverable first failure
+    for first in [(f, fr) for f in FLAGS_REC + [-6] for fr in FRACS]:
+        scripts.append({"first": first, "levels": [], "reinit": [rng.choice([-22, -21])]})
+    for first in [(-1, 0.0), (-3, 0.37), (-6, 0.0)]:
+        scripts.append({"first": first, "levels": [(3, -2, 0.0)], "reinit": [0, -22]})
+        scripts.append({"first": first, "levels": [(3, -2, 0.0), (7, -4, 0.0)], "reinit": [0, 0, -21]})
     # five failing levels with recoverable flags (ladder exhausted)
     for f in (-1, -4, -6):
         scripts.append({"first": (f, 0.5), "levels": [(3 * lv, f, 0.25) for lv in range(1, 6)], "reinit": []})
@@ -219,6 +225,8 @@ def run_case(case, ctx):
                 obs["ladder_level_5_reached"] += 1
             if sc["reinit"]:
                 obs["scripts_with_reinit_failure"] += 1
+                if ev["reinit_calls"] >= len(sc["reinit"]):
+                    obs["reinit_failure_reached"] += 1
             if ev["ret"] == 0:
                 obs["success_runs_checked"] += 1
                 if failing:
@@ -228,9 +236,11 @@ def run_case(case, ctx):
                                           f"{adv[:3]} (script first={sc['first']} levels={sc['levels']})", script=sc, advanced=adv[:4], dt=dt))
                 if ev["last_kind"] == 0 and ev["last_flag"] < 0:
                     viol.append(violation("success_after_failed_call", f"Solve returned success although the last CVode call returned {ev['last_flag']}", script=sc))
-                if ev["last_kind"] == 1 and ev["reinit_calls"] and sc["reinit"] and len(sc["reinit"]) <= ev["reinit_calls"] and sc["reinit"][-1] < 0 \
-                        and len(sc["reinit"]) == ev["reinit_calls"]:
-                    viol.append(violation("success_after_failed_reinit", "Solve returned success although CVodeReInit failed", script=sc))
+                if sc["reinit"] and sc["reinit"][-1] < 0 and ev["reinit_calls"] >= len(sc["reinit"]):
+                    # the scripted failing CVodeReInit was reached (whatever was called after it): not a recoverable outcome
+                    obs["success_after_reached_reinit_failure"] += 1
+                    viol.append(violation("success_after_failed_reinit", f"Solve returned success although CVodeReInit call #{len(sc['reinit'])} returned "
+                                          f"{sc['reinit'][-1]} ({ev['reinit_calls']} re-initialisations, {ev['cvode_calls']} CVode calls)", script=sc))
             else:
                 obs["failure_runs_checked"] += 1
                 ylog = ev["y_logged"]
